@@ -904,7 +904,13 @@ impl World {
                 };
                 let draws = env::take_entropy_draws()
                     .into_iter()
-                    .map(|d| DrawObs { real_hex: hex::encode(&d.real), served_hex: hex::encode(&d.served), failed: d.failed })
+                    .map(|d| DrawObs {
+                        // the OS bytes are uncontrolled: they are recorded only in the observe arm, where
+                        // they are what the library continues with
+                        real_hex: if *observe { hex::encode(&d.real) } else { String::new() },
+                        served_hex: hex::encode(&d.served),
+                        failed: d.failed,
+                    })
                     .collect();
                 let reads = reads_obs(env::take_clock_reads());
                 if let Outcome::OkStr(t) = &result {
